@@ -283,6 +283,7 @@ func c10Run(c *mc.Ctx) {
 		{Kind: 0x01},
 		{Kind: 0x10, Int: []ref.TTHIntKV{{K: 1, V: "a"}, {K: 0xffff, V: ""}}},
 		{Kind: 0x10, Int: []ref.TTHIntKV{{K: 1, V: "b"}}},
+		{Kind: 0x01, Str: [][2]string{{ttheader.HeaderTransPerfTRecvEnd, "e"}, {ttheader.HeaderTransPerfTRecvStart, "s"}, {ttheader.HeaderIDLServiceName, "svc"}, {ttheader.HeaderTransRemoteAddr, "1.2.3.4"}, {ttheader.HeaderTransToCluster, "c"}, {ttheader.HeaderTransToIDC, "i"}, {ttheader.HeaderTransPerfTConnStart, "1"}, {ttheader.HeaderTransPerfTConnEnd, "2"}, {ttheader.HeaderTransPerfTSendStart, "3"}, {ttheader.HeaderConnectionReadyToReset, "4"}, {ttheader.HeaderProcessAtTime, "5"}}},
 		{Kind: 0x11, ACL: "tok1"},
 		{Kind: 0x11, ACL: ""},
 		{Kind: 0x00},
@@ -357,7 +358,7 @@ func c10Run(c *mc.Ctx) {
 		c10One(c, f, c10Case{Desc: fmt.Sprintf("%d transform ids", len(tr))})
 	}
 	c.Sample("sections", c10Case{Hex: hex.EncodeToString(ref.TTHBuildRaw(0x0102, -2, 4, nil, []ref.TTHSection{secs[5], secs[7], secs[0]}, 100, -1)), Desc: "acl, padding byte, string KV"})
-	c.Done("all sequences of <= 3 sections over 8 section variants x 5 total-length values, bytes- and stream-backed, with every truncation and byte perturbation of each valid frame")
+	c.Done("all sequences of <= 3 sections over 9 section variants (incl. every well-known transport key) x 5 total-length values, bytes- and stream-backed, with every truncation and byte perturbation of each valid frame")
 }
 
 func init() {
